@@ -3150,10 +3150,12 @@ impl Gen {
             };
             if avoid_bi.contains(&b) {
                 let l = self.pick_locs(1, limit, avoid_locs, false);
+                // every location below the limit may already be taken by the other parameters: then the first free one above it
+                let l0 = l.first().copied().unwrap_or_else(|| (limit..).find(|x| !avoid_locs.contains(x)).unwrap());
                 let mname = self.fresh_in(&mut mset, 0);
-                members.push(Member { name: mname, ty: Ty::Vec(4, Sc::F32), align: None, size: None, io: Some(format!("@location({})", l[0])) });
+                members.push(Member { name: mname, ty: Ty::Vec(4, Sc::F32), align: None, size: None, io: Some(format!("@location({})", l0)) });
                 let mut locs2 = locs.clone();
-                locs2.push(l[0]);
+                locs2.push(l0);
                 self.structs.push(StructDef { name, members });
                 self.io.push(IoInfo { sidx: self.structs.len() - 1, locs: locs2, builtins, role });
                 return self.io.len() - 1;
